@@ -3,6 +3,7 @@ package main
 import (
 	"fmt"
 	"math/rand"
+	"sync"
 	"time"
 
 	"github.com/onflow/atree"
@@ -16,7 +17,7 @@ func init() { streams["malformedall"] = malformedAllStream }
 // data / index / collision-group slabs, slabs with inlined arrays and maps, wrappers, compact maps,
 // large-value slabs, array slabs — are truncated at every length and mutated (bit flips, byte
 // overwrites, splices, deletions, length/tag edits); DecodeSlab, the three header queries and, on
-// success, ByteSize / ChildStorables / re-encoding must neither panic nor hang.
+// success, ByteSize / ChildStorables must neither panic nor hang (re-encoding is observed, not judged).
 func malformedAllStream(cfg *Config) *hx.Stats {
 	st := hx.NewStats("malformedall", cfg.Seed)
 	rng := rand.New(rand.NewSource(cfg.Seed*48271 + 11))
@@ -76,6 +77,8 @@ func malformedAllStream(cfg *Config) *hx.Stats {
 		return st
 	}
 	kinds := map[string]int{}
+	var obsMu sync.Mutex
+	obsEncodePanic := 0
 	try := func(id atree.SlabID, b []byte, what string) {
 		done := make(chan string, 1)
 		go func() {
@@ -91,7 +94,19 @@ func malformedAllStream(cfg *Config) *hx.Stats {
 			if err == nil && s != nil {
 				_ = s.ByteSize()
 				_ = s.ChildStorables()
-				_, _ = atree.EncodeSlab(s, hx.EncMode())
+				// Re-encoding an accepted slab is NOT part of C19 (the property names decoding, the header
+				// queries and the size / child-reference accessors).  A panic here is counted as an
+				// observation only (DESIGN.md 13.4, O1), never reported as a violation.
+				func() {
+					defer func() {
+						if r := recover(); r != nil {
+							obsMu.Lock()
+							obsEncodePanic++
+							obsMu.Unlock()
+						}
+					}()
+					_, _ = atree.EncodeSlab(s, hx.EncMode())
+				}()
 			}
 			done <- ""
 		}()
@@ -144,6 +159,9 @@ func malformedAllStream(cfg *Config) *hx.Stats {
 	for k, v := range kinds {
 		st.Dist[k] = v
 	}
+	obsMu.Lock()
+	st.Dist["observation:re-encode-of-accepted-mutant-panics"] = obsEncodePanic
+	obsMu.Unlock()
 	st.Distinct = int(st.Ops)
 	st.Samples = append(st.Samples, fmt.Sprintf("%d registers (map data/index/collision-group, inlined arrays/maps, wrappers, compact maps, large values, array data/index): every truncation + %d mutations each", st.Programs, perReg))
 	atree.VerifSetThreshold(1024)
